@@ -13,6 +13,11 @@ use super::{NsSnap, Snap, World};
 
 /// Is namespace `ns` of `repo` exactly what its signed refs say, validly signed and bound to `rid`?
 pub fn validity(repo: &radicle::storage::git::Repository, rid: &RepoId, ns: &str, refs: &NsSnap) -> Result<(), &'static str> {
+    signed(repo, rid, ns, refs, false).map(|_| ())
+}
+
+/// The verified signed-refs map of a namespace (`map_only`), or the full validity check.
+pub fn signed(repo: &radicle::storage::git::Repository, rid: &RepoId, ns: &str, refs: &NsSnap, map_only: bool) -> Result<BTreeMap<String, Oid>, &'static str> {
     let raw = &repo.backend;
     let Some(sig_oid) = refs.get("refs/rad/sigrefs") else { return Err("no-sigrefs") };
     let commit = raw.find_commit(**sig_oid).map_err(|_| "sigrefs-not-a-commit")?;
@@ -41,6 +46,9 @@ pub fn validity(repo: &radicle::storage::git::Repository, rid: &RepoId, ns: &str
     let key = PublicKey::from_str(ns).map_err(|_| "namespace-not-a-key")?;
     let sig = radicle::crypto::Signature::try_from(sig.as_slice()).map_err(|_| "signature-malformed")?;
     key.verify(canonical.as_bytes(), &sig).map_err(|_| "signature-invalid")?;
+    if map_only {
+        return Ok(map);
+    }
     // names this repository's identity
     let root = map.get("refs/rad/root").ok_or("no-identity-root")?;
     let doc = repo.identity_doc_at(*root).map_err(|_| "identity-root-not-an-identity")?;
@@ -60,7 +68,7 @@ pub fn validity(repo: &radicle::storage::git::Repository, rid: &RepoId, ns: &str
             return Err("unsigned-ref-present");
         }
     }
-    Ok(())
+    Ok(map)
 }
 
 impl<'a> World<'a> {
@@ -154,6 +162,8 @@ impl<'a> World<'a> {
                 let need = self.threshold.saturating_sub(l_delegate as usize);
                 let mut valid = 0;
                 let mut local_served = false;
+                let server_repo = self.server_repo();
+                let server = Self::snapshot(&server_repo.backend);
                 for d in self.delegates() {
                     let ns = self.actors[d].nid.to_string();
                     if d == self.l {
@@ -171,10 +181,30 @@ impl<'a> World<'a> {
                     }
                     if let Some(a) = after.get(&ns) {
                         // a delegate counts if its namespace passes every check except (possibly) the identity-root entry,
-                        // which `SignedRefs::verify` does not yet require (tracked under C01)
-                        match validity(&repo, &self.rid, &ns, a) {
-                            Ok(()) | Err("no-identity-root") => valid += 1,
-                            Err(_) => {}
+                        // which `SignedRefs::verify` does not yet require (tracked under C01) ...
+                        let stored_valid = matches!(validity(&repo, &self.rid, &ns, a), Ok(()) | Err("no-identity-root"));
+                        // ... and if what the serving peer offered for it in this fetch was not invalid (the quantifier's
+                        // per-delegate state "invalid"): a delegate for whom garbage is offered does not have valid signed
+                        // refs in this fetch, even if an older valid copy is stored. Only decidable by the harness when
+                        // every namespace is requested (no refs_at).
+                        // What the client can see of an offer: whether signed refs exist at all, and a special ref
+                        // `rad/id` (always requested) that the signed refs do not list; everything the signed refs
+                        // list is requested by the signed object ids, so refs moved, added or deleted by the serving
+                        // peer are invisible to it.
+                        let offered_invalid = self.last_mode == 0
+                            && server
+                                .get(&ns)
+                                .map(|o| match signed(&server_repo, &self.rid, &ns, o, true) {
+                                    Err("no-sigrefs") => !o.is_empty(),
+                                    Err(_) => false,
+                                    Ok(map) => o.contains_key("refs/rad/id") && !map.contains_key("refs/rad/id"),
+                                })
+                                .unwrap_or(false);
+                        if stored_valid && offered_invalid {
+                            self.res.hit("probe.c02.stored_valid_but_offered_invalid");
+                        }
+                        if stored_valid && !offered_invalid {
+                            valid += 1;
                         }
                     }
                 }
